@@ -164,6 +164,8 @@ def put (s : FleetStore) (proc tid : Nat) (x : Item) : FleetStore × BufStore.Re
 inductive Op where
   | reservePut (proc : Nat)
   | reserveGet (proc : Nat)
+  | reservePutP (proc : Nat) (prio : Int)      -- FleetStore.reserve_put(priority=…): stable re-sort of the queue
+  | reserveGetP (proc : Nat) (prio : Int)
   | put (proc tid : Nat) (x : Item)
   | get (proc tid : Nat)
   | cancelPut (tid : Nat)
@@ -180,6 +182,8 @@ def step (s0 : FleetStore) (op : Op) : FleetStore × BufStore.Res :=
   match op with
   | .reservePut p => s.liftB (s.b.reservePut p)
   | .reserveGet p => s.liftB (s.b.reserveGet p)
+  | .reservePutP p pr => s.liftB (s.b.reservePutP p pr)
+  | .reserveGetP p pr => s.liftB (s.b.reserveGetP p pr)
   | .put p t x => s.put p t x
   | .get p t => s.liftB (s.b.get p t)
   | .cancelPut t => s.liftB (s.b.cancelPut t)
